@@ -89,7 +89,7 @@ register("C03",
          "Machine-checked Coq theorems about the multi-fact form for sub-query results of ANY size: the FULL OUTER JOIN (NULL-safe dimension equality, COALESCE) of two key-unique sub-results has exactly the union of their groups, each once (C03_union), "
          "and every value of either sub-query appears unchanged in its group's row, NULL-padded where the other side lacks the group (C03_values_*); the exact shape of the join is characterised without any uniqueness hypothesis; the three-way chain is refuted by witnesses. "
          "Model/MultiFact.v (sub-query per metric model reusing the C02 plan/join model, join chain, filter partitioning) is hand-written and tied to the code by executing joint queries on both; the oracle is the property's own observation: "
-         "the full outer join of the IMPLEMENTATION's single-metric results. Known-finding classes K1 (filter on a metric model), K2 (filter on a non-metric model -> binder error), K4 (metrics of two models joined one_to_one are not split). Regenerated on every run: the verdict table of _needs_preaggregation_for_fanout (2744 scripted scenarios), proved equal to the decision function and to the planning model's needs_multifact for any graph and query (C03_multifact_table, C03_multifact_is_plan_decision).",
+         "the full outer join of the IMPLEMENTATION's single-metric results. Known-finding classes K1 (filter on a metric model), K2 (filter on a non-metric model -> binder error), K4 (metrics of two models joined one_to_one are not split). Regenerated on every run: the verdict table of _needs_preaggregation_for_fanout (2744 scripted scenarios), proved equal to the decision function and to the planning model's needs_multifact for any graph and query (C03_multifact_table, C03_multifact_is_plan_decision). Also regenerated: the STRUCTURE of the multi-fact statement (_generate_with_preaggregation on 260 scripted queries): C03_statement_table; C03_joins_on_all_dimension_columns / C03_sub_queries_share: for any query, every later sub-query is joined with the first on all dimension columns (granularity included) and all sub-queries get the same dimensions and row filters.",
          "Trusted: translator/pyinterp.py + gen_multifact.py (fail-closed definitional interpreter, validated against CPython each run); Coq kernel; Model/MultiFact.v hand-written, tied by differential testing; DuckDB as oracle. The theorems cover the outer join; that each sub-query equals the single-metric query is by construction of the code (same generate() call) and checked by the oracle. No axioms.",
          "Coq proof about the outer-join combinator + model/implementation correspondence; oracle from the implementation's own single-metric queries; translator-regenerated verdict table of the multi-fact decision", "DESIGN.md section 6/C03")
 
